@@ -1,6 +1,101 @@
 import Infretis.Model.Proto
-open Infretis.Proto
+import Infretis.Model.Moves
+open Infretis Infretis.Proto Infretis.Moves Infretis.Engine
 
-def handle (_toks : List String) : String := "bad-op"
+def showStatus : Status → String
+  | .ACC => "ACC" | .KOB => "KOB" | .BTL => "BTL" | .BTX => "BTX" | .BWI => "BWI"
+  | .FTL => "FTL" | .FTX => "FTX" | .ZL => "0-L" | .NCR => "NCR" | .NSG => "NSG" | .FTXE => "FTX"
+
+def showErr : Err → String
+  | .value => "err:value" | .badDraw => "err:baddraw" | .zerodiv => "err:zerodiv"
+  | .index => "err:index" | .assert => "err:assert"
+
+def showDraw : Draw → String
+  | .integers lo hi => s!"int:{lo}:{hi}"
+  | .random => "random"
+
+def showPStatus : PStatus → String
+  | .running => "running" | .crossedLeft => "left" | .crossedRight => "right"
+  | .maxLenNoAdd => "maxnoadd" | .maxLen => "maxlen"
+
+def b01 (b : Bool) : String := if b then "1" else "0"
+
+def parseVariant? : String → Option Variant
+  | "a" => some .asIs
+  | "r" => some .repaired
+  | _ => none
+
+/-- start condition token: some of the letters L, R ("-" = key absent, "0" = empty set) -/
+def parseSc? (s : String) : Option (Option StartCond) :=
+  if s = "-" then some none
+  else if s = "0" then some (some { hasL := false, hasR := false })
+  else if s.toList.all (fun c => c = 'L' || c = 'R') then
+    some (some { hasL := s.toList.contains 'L', hasR := s.toList.contains 'R' })
+  else none
+
+def showShootOut (o : ShootOut) : String :=
+  s!"ok {b01 o.accept} {showStatus o.status} {o.genSp} {o.genIdx} {o.genNb} {o.timeOrigin} {o.usedB} {o.usedF} | {showList toString o.trial} | {showList showDraw o.draws}"
+
+def parseShootIn (toks : List String) : Option ShootIn :=
+  match toks with
+  | oto :: ld :: l :: m :: r :: ml :: am :: sc :: sce :: idx :: xi :: kick :: rest =>
+    match parseInt? oto, parseInt? l, parseInt? m, parseInt? r, parseNat? ml, parseSc? sc, parseSc? sce,
+          parseNat? idx, parseRat? xi, parseInt? kick, takeList parseInt? rest with
+    | some oto, some l, some m, some r, some ml, some (some sc), some sce, some idx, some xi, some kick,
+      some (old, rest) =>
+      match takeList parseInt? rest with
+      | some (back, rest) =>
+        match takeList parseInt? rest with
+        | some (forw, []) =>
+          some { old := old, oldTimeOrigin := oto, genLd := ld = "1", l := l, m := m, r := r, maxlength := ml,
+                 allowMax := am = "1", sc := sc, scEns := sce, idx := idx, xi := xi, kick := kick,
+                 back := back, forw := forw }
+        | _ => none
+      | none => none
+    | _, _, _, _, _, _, _, _, _, _, _ => none
+  | _ => none
+
+def handle (toks : List String) : String :=
+  match toks with
+  | "shoot" :: v :: rest =>
+    match parseVariant? v, parseShootIn rest with
+    | some v, some i =>
+      match shoot v i with
+      | .ok o => showShootOut o
+      | .error e => showErr e
+    | _, _ => "bad-op"
+  | "atp" :: v :: ml :: x :: left :: right :: rest =>
+    let mlv : Option (Option Nat) := if ml = "-" then some none else (parseNat? ml).map some
+    match v, mlv, parseInt? x, parseInt? left, parseInt? right, takeList parseInt? rest with
+    | v, some mlv, some x, some left, some right, some (ops, []) =>
+      let res := match v with
+        | "s" => some (addToPath ops mlv x left right)        -- the shared model
+        | "a" => some (addToPathV .asIs ops mlv x left right)
+        | "r" => some (addToPathV .repaired ops mlv x left right)
+        | _ => none
+      match res with
+      | none => "bad-op"
+      | some none => "err:index"
+      | some (some (ops', a)) =>
+        s!"{showPStatus a.status} {b01 a.success} {b01 a.stop} {b01 a.added} | {showList toString ops'}"
+    | _, _, _, _, _, _ => "bad-op"
+  | "feed" :: v :: ml :: left :: right :: rest =>
+    let mlv : Option (Option Nat) := if ml = "-" then some none else (parseNat? ml).map some
+    match mlv, parseInt? left, parseInt? right, takeList parseInt? rest with
+    | some mlv, some left, some right, some (ops, rest) =>
+      match takeList parseInt? rest with
+      | some (stream, []) =>
+        let res := match v with
+          | "s" => some (feed left right mlv ops stream 0)
+          | "a" => some (feedV .asIs left right mlv ops stream 0)
+          | "r" => some (feedV .repaired left right mlv ops stream 0)
+          | _ => none
+        match res with
+        | none => "bad-op"
+        | some none => "err:index"
+        | some (some (ops', ok, k)) => s!"{b01 ok} {k} | {showList toString ops'}"
+      | _ => "bad-op"
+    | _, _, _, _ => "bad-op"
+  | _ => "bad-op"
 
 def main : IO Unit := mainWith handle
